@@ -429,6 +429,13 @@ fn swarcount(a: &[&str]) -> Option<String> {
 }
 
 /// `shiftor <needle> <hay>`
+#[cfg(memchr_verif_noalloc)]
+fn shiftor(_a: &[&str]) -> Option<String> {
+    // the Shift-Or searcher only exists with the `alloc` feature
+    None
+}
+
+#[cfg(not(memchr_verif_noalloc))]
 fn shiftor(a: &[&str]) -> Option<String> {
     if a.len() != 2 {
         return None;
